@@ -405,6 +405,8 @@ class Builtins:
                             patterns=[z3.Select(dst, k)]))
         st.assume(FA([k], z3.Implies(z3.And(k >= 0, k < nb), z3.Select(dst, na + k) == z3.Select(sb, k)),
                             patterns=[z3.Select(sb, k)]))
+        st.assume(FA([k], z3.Implies(z3.And(k >= na, k < na + nb), z3.Select(dst, k) == z3.Select(sb, k - na)),
+                            patterns=[z3.Select(dst, k)]))
         return res
 
     def list_eq(self, st, a, b):
@@ -1058,6 +1060,49 @@ class Builtins:
         st.ghost["comps"] = comps
         return res
 
+    def _src_map_of(self, st, arr):
+        if z3.is_app(arr) and arr.decl().kind() == z3.Z3_OP_SELECT and z3.is_const(arr.arg(0)):
+            return arr.arg(0)
+        return None
+
+    def link_equivalent_classes(self, st, ent, arr, n, src_elem=None):
+        """Two predicates that agree on every element *under the current path condition* give the same count / sum /
+        filtered list for this source (extensionality, trusted lemma schema); the equalities are assumed for (arr, n)."""
+        eng = self.eng
+        for other in self.sym_classes:
+            if other is ent or other["kind"] != ent["kind"] or "fn" not in other or "fn" not in ent:
+                continue
+            if other["x"].sort() != ent["x"].sort() or other["t"].sort() != ent["t"].sort():
+                continue
+            key = (other["idx"], ent["idx"], arr.get_id(), n.get_id())
+            done = st.ghost.get("linked", frozenset())
+            if key in done:
+                continue
+            kq = z3.Int("lqk!")
+            c = z3.Select(arr, kq)
+            a = z3.substitute(other["t"], (other["x"], c))
+            b = z3.substitute(ent["t"], (ent["x"], c))
+            s = z3.Solver()
+            s.set("timeout", 3000)
+            for p in st.pc:
+                s.add(p)
+            s.add(kq >= 0, kq < n)
+            if src_elem is not None:
+                s2 = st.fork()
+                v = eng.wrap(s2, c, src_elem)
+                eng.assume_wf(s2, v, self._src_map_of(st, arr))
+                for p in s2.pc[len(st.pc):]:
+                    s.add(p)
+            s.add(a != b)
+            if s.check() == z3.unsat:
+                st.assume(other["fn"](arr, n) == ent["fn"](arr, n))
+                if "filt" in other and "filt" in ent:
+                    st.assume(other["filt"](arr, n) == ent["filt"](arr, n))
+                eng.used_assumptions.add("lemma schema: predicates that agree on every element under the path condition give equal "
+                                         "count/sum/filter results on the same list (extensionality)")
+            st.ghost = dict(st.ghost)
+            st.ghost["linked"] = done | {key}
+
     def filter_list(self, st, comp, cnt, arr, n, elem_t):
         eng = self.eng
         x, t = self._abstract(st, comp, "pred")
@@ -1087,6 +1132,7 @@ class Builtins:
             eng.used_assumptions.add("lemma schema: a filtered list is the subsequence of kept elements (placement by prefix count, "
                                      "increasing source indices); characterises [x for x in xs if p(x)]")
         F = ent["filt"]
+        self.link_equivalent_classes(st, ent, arr, n, comp.src_elem)
         total = cnt(arr, n)
         res = eng.new_list(st, elem_t, total)
         es = sort_of(elem_t)
@@ -1192,6 +1238,7 @@ class Builtins:
         t_map = eng.as_int(map_fn(s, xv)) if map_fn is not None else x
         t_pred = pred_fn(s, xv) if pred_fn is not None else z3.BoolVal(True)
         ent = self._sum_entry(st, x, z3.simplify(z3.If(t_pred, t_map, 0)))
+        self.link_equivalent_classes(st, ent, arr, n, src_elem)
         return ent["fn"](arr, n)
 
     def comp_first(self, st, comp, node):
@@ -1228,10 +1275,18 @@ class Builtins:
         eng = self.eng
         lo, hi, f = args
         nparams = len(f.node.args.args)
-        st.fresh_ctr += 1
-        qs = [z3.Int(f"q{st.fresh_ctr}_{i}!") for i in range(nparams)]
+        if z3.is_true(z3.simplify(eng.as_int(lo) >= eng.as_int(hi))):
+            return VBool(True)      # empty range
+        depth = st.ghost.get("qdepth", 0)
+        st.ghost = dict(st.ghost)
+        st.ghost["qdepth"] = depth + 1
+        # bound variables are named by nesting depth: equal clauses give equal formulas (and are de-duplicated)
+        qs = [z3.Int(f"qd{depth}_{i}!") for i in range(nparams)]
         mark = len(st.pc)
-        body = eng.truthy(st, self._lam(st, f, [VInt(q) for q in qs], node))
+        try:
+            body = eng.truthy(st, self._lam(st, f, [VInt(q) for q in qs], node))
+        finally:
+            st.ghost["qdepth"] = depth
         side = st.pc[mark:]
         del st.pc[mark:]
         if nparams == 1:
@@ -1278,10 +1333,15 @@ class Builtins:
     def sp_exists(self, st, args, kwargs, node):
         eng = self.eng
         lo, hi, f = args
-        st.fresh_ctr += 1
-        q = z3.Int(f"q{st.fresh_ctr}!")
+        depth = st.ghost.get("qdepth", 0)
+        st.ghost = dict(st.ghost)
+        st.ghost["qdepth"] = depth + 1
+        q = z3.Int(f"qe{depth}!")
         mark = len(st.pc)
-        body = eng.truthy(st, self._lam(st, f, [VInt(q)], node))
+        try:
+            body = eng.truthy(st, self._lam(st, f, [VInt(q)], node))
+        finally:
+            st.ghost["qdepth"] = depth
         side = st.pc[mark:]
         del st.pc[mark:]
         for p in side:
@@ -1588,6 +1648,8 @@ class Builtins:
                                     patterns=[z3.Select(new, k)]))
                 st.assume(FA([k], z3.Implies(z3.And(k >= 0, k < m), z3.Select(new, n + k) == z3.Select(sarr, k)),
                                     patterns=[z3.Select(sarr, k)]))
+                st.assume(FA([k], z3.Implies(z3.And(k >= n, k < n + m), z3.Select(new, k) == z3.Select(sarr, k - n)),
+                                    patterns=[z3.Select(new, k)]))
                 st.heap[("ELT", sort_name(es))] = E.SStore(em, l.ref, new)
                 st.heap[("LEN",)] = E.SStore(st.lenmap(), l.ref, n + m)
                 ln = getattr(node, "lineno", 0)
